@@ -140,8 +140,11 @@ def program(draw):
         cfg = {}
         for pn in draw(st.lists(st.sampled_from(pnames), max_size=2, unique=True)):
             T = Ts[pn]
-            how = draw(st.sampled_from(['value', 'max', 'description']))
-            if how == 'value':
+            how = draw(st.sampled_from(['value', 'max', 'description', 'datatype']))
+            if how == 'datatype':
+                # the configuration gives a datatype object (one object, used for every module configured so)
+                cfg[pn] = {'datatype': {'$T': T}}
+            elif how == 'value':
                 cfg[pn] = {'value': draw(specs.valid_value(T))}
             elif how == 'max' and numeric_leaf(T):
                 cfg[pn] = {'max': draw(st.sampled_from([3, 50, 1000]))}
@@ -297,6 +300,12 @@ class World:
     def create(self, step):
         cfg = {'description': f'instance {step["inst"]}'}
         cfg.update({k: dict(v) for k, v in step['cfg'].items()})
+        for k, v in cfg.items():
+            if isinstance(v, dict) and isinstance(v.get('datatype'), dict) and '$T' in v['datatype']:
+                key = '$cfgdt:' + specs.tojson(v['datatype']['$T'])
+                if key not in self.constants:
+                    self.constants[key] = specs.build(v['datatype']['$T'])
+                v['datatype'] = self.constants[key]
         self.instances[step['inst']] = self.classes[step['cls']](step['inst'], self.log, cfg, self.srv)
 
     def mutate(self, step):
